@@ -117,7 +117,7 @@ impl Workload for Wt {
 pub fn run(ctx: &Ctx) -> i32 {
     let mut acc = Acc::new(ctx);
     let wl = Wt {
-        n: if ctx.quick() { 6000 } else { 2_000_000 },
+        n: if ctx.quick() { 30_000 } else { 2_000_000 },
         cfg: wt_cfg(),
     };
     acc.pool(&wl, "c02", false);
